@@ -8,6 +8,7 @@ import (
 	"fmt"
 	"io"
 	"net"
+	"runtime/debug"
 	"sync"
 	"sync/atomic"
 	"time"
@@ -27,6 +28,12 @@ type proxyScen struct {
 	Peers    int    `json:"peers"`
 	Chunk    int    `json:"chunk"`
 	Prefetch int    `json:"prefetch"`
+	// Via "route": the proxy handler sits behind a real route whose matcher needs the first 10 bytes, and the client's
+	// first segment ends inside them (matching takes two rounds); "direct": the handler is called on the connection
+	Via string `json:"via"`
+	// FailPeer: the upstream selected first has a second peer that refuses connections; the handler retries and a
+	// second upstream serves the connection. The abandoned connection to the first peer is observed too (ups[0]).
+	FailPeer bool `json:"failpeer"`
 }
 
 type upObs struct {
@@ -37,6 +44,7 @@ type upObs struct {
 	SawEOF            bool   `json:"sawEOF"`
 	Drained           bool   `json:"drained"`
 	ClosedAfterReturn bool   `json:"closedAfterReturn"`
+	Abandoned         bool   `json:"abandoned"` // opened by a dial attempt that was given up
 }
 type crecvObs struct {
 	N      int  `json:"n"`
@@ -198,15 +206,81 @@ func runProxy(sc proxyScen, idx int) (*proxyTrace, error) {
 	// the proxy handler under test
 	ctx, cancel := caddy.NewContext(caddy.Context{Context: context.Background()})
 	defer cancel()
-	h := new(l4proxy.Handler)
-	cfg, _ := json.Marshal(map[string]any{"upstreams": []map[string]any{{"dial": dials}}})
-	if err := json.Unmarshal(cfg, h); err != nil {
-		return nil, err
+	upstreams := []map[string]any{{"dial": dials}}
+	hcfg := map[string]any{"upstreams": upstreams}
+	var abandoned *upObs
+	var abandonedAccepted atomic.Bool
+	abandonedClosed := make(chan struct{})
+	if sc.FailPeer {
+		// upstream 0 = [A accepts, D refuses]; "first" selects it, the dial of D fails, the handler retries and
+		// (upstream 0 now counting a failure) selects the serving upstream
+		aln, err := net.Listen("tcp", "127.0.0.1:0")
+		if err != nil {
+			return nil, err
+		}
+		defer aln.Close()
+		dln0, err := net.Listen("tcp", "127.0.0.1:0")
+		if err != nil {
+			return nil, err
+		}
+		refused := dln0.Addr().String()
+		dln0.Close()
+		abandoned = &upObs{End: "close", RecvIntact: true, Abandoned: true}
+		go func() {
+			c, err := aln.Accept()
+			if err != nil {
+				close(abandonedClosed)
+				return
+			}
+			abandonedAccepted.Store(true)
+			buf := make([]byte, 4096)
+			for {
+				n, err := c.Read(buf)
+				abandoned.Recv += n
+				if err != nil {
+					abandoned.Drained = true
+					abandoned.SawEOF = errors.Is(err, io.EOF)
+					c.Close()
+					close(abandonedClosed)
+					return
+				}
+			}
+		}()
+		hcfg = map[string]any{"upstreams": []map[string]any{{"dial": []string{aln.Addr().String(), refused}}, {"dial": dials}},
+			"load_balancing": map[string]any{"selection": map[string]any{"policy": "first"}, "try_duration": "2s", "try_interval": "20ms"},
+			"health_checks":  map[string]any{"passive": map[string]any{"max_fails": 1, "fail_duration": "30s"}}}
 	}
-	if err := h.Provision(ctx); err != nil {
-		return nil, err
+	var h *l4proxy.Handler
+	var compiled layer4.Handler
+	if sc.Via == "route" {
+		hj := map[string]any{"handler": "proxy"}
+		for k, v := range hcfg {
+			hj[k] = v
+		}
+		raw, _ := json.Marshal([]map[string]any{{"match": []map[string]any{{"verif_m0": map[string]any{"at": 10, "v": "Y", "w": "Y"}}}, "handle": []map[string]any{hj}}})
+		var rl layer4.RouteList
+		if err := json.Unmarshal(raw, &rl); err != nil {
+			return nil, err
+		}
+		if base, err := vh.CaddyContext(); err == nil {
+			ctx, cancel = caddy.NewContext(base)
+			defer cancel()
+		}
+		if err := rl.Provision(ctx); err != nil {
+			return nil, err
+		}
+		compiled = rl.Compile(zap.NewNop(), 5*time.Second, layer4.HandlerFunc(func(*layer4.Connection) error { return errors.New("fell through to the fallback") }))
+	} else {
+		h = new(l4proxy.Handler)
+		cfg, _ := json.Marshal(hcfg)
+		if err := json.Unmarshal(cfg, h); err != nil {
+			return nil, err
+		}
+		if err := h.Provision(ctx); err != nil {
+			return nil, err
+		}
+		defer h.Cleanup()
 	}
-	defer h.Cleanup()
 
 	// downstream: real loopback TCP
 	dln, err := net.Listen("tcp", "127.0.0.1:0")
@@ -284,11 +358,28 @@ func runProxy(sc proxyScen, idx int) (*proxyTrace, error) {
 
 	retCh := make(chan error, 1)
 	t0 := time.Now()
-	go func() { retCh <- h.Handle(cx, nil) }()
+	go func() {
+		if compiled != nil {
+			retCh <- compiled.Handle(cx)
+		} else {
+			retCh <- h.Handle(cx, nil)
+		}
+	}()
 
 	// client writer
 	go func() {
 		rest := cstream[pre:]
+		if sc.Via == "route" && len(rest) > 4 {
+			// the first segment ends inside the bytes the route's matcher needs
+			n, _ := cc.Write(rest[:4])
+			tr.Csent += n
+			rest = rest[n:]
+			time.Sleep(30 * time.Millisecond)
+			// ... and the second one completes them, whatever the order of the two directions is afterwards
+			n, _ = cc.Write(rest[:8])
+			tr.Csent += n
+			rest = rest[n:]
+		}
 		switch sc.Order {
 		case "upstream_first":
 			// send only after the upstreams' end of stream arrived: this direction must still flow
@@ -339,6 +430,17 @@ func runProxy(sc proxyScen, idx int) (*proxyTrace, error) {
 	case <-time.After(3 * time.Second):
 	}
 	cc.Close()
+	// (peer state is process-wide and keyed by address: when the refusing address was used by an earlier scenario the
+	// upstream is out of rotation from the start and nothing is dialled; such a run simply has no abandoned connection)
+	if abandoned != nil && abandonedAccepted.Load() {
+		select {
+		case <-abandonedClosed:
+			abandoned.ClosedAfterReturn = true
+		case <-time.After(3 * time.Second):
+		}
+		tr.Ups = append(tr.Ups, *abandoned)
+		tr.Crecv = append([]crecvObs{{Intact: true}}, tr.Crecv...)
+	}
 	for _, s := range ups {
 		if c, ok := s.conn.Load().(net.Conn); ok {
 			c.Close()
@@ -360,6 +462,10 @@ func init() {
 		out := fs.String("out", "", "traces (NDJSON for L4ProxyTrace)")
 		sum := fs.String("summary", "", "summary JSON")
 		fs.Parse(args)
+		// a leaked upstream connection must not be "closed" by the garbage collector's finalizer before the
+		// check looks at it: no collections unless memory really runs short
+		debug.SetGCPercent(-1)
+		debug.SetMemoryLimit(6 << 30)
 		var scens []proxyScen
 		if err := vh.ReadLines(*in, 1, func(i int, line []byte) {
 			var s proxyScen
